@@ -275,18 +275,19 @@ CLAIMED = {
         design="§7 C02"),
     "C05": dict(
         category="proof",
-        technique="Lean 4 partial refinement proof (machine M4 vs an independent big-step interpreter M5) + four-way differential: big-step reference / model machine / in-process evaluator / `garden run`",
+        technique="Lean 4 refinement proof (frame-context simulation, induction on the reference interpreter's fuel) of an independent big-step interpreter M5 by the machine model M4 + four-way differential: reference / model machine / in-process evaluator / `garden run`",
         text="An independent fuel-based big-step interpreter (no expression or value stack, never reads a use flag) is the reference. "
-             "Proved so far (machine_refines_bigstep_exprs_partial): for programs whose toplevel expressions are literals, "
-             "variables, parentheses or invalid nodes, whenever the reference yields a value or an error the machine run ends in "
-             "done/error with the same value or error kind and the same output. For the whole core fragment (let/assign, if, "
-             "match, while/for, break/continue/return, functions, closures, user enums) ~1.7k generated programs per quick run "
-             "(type-directed generator, templates, malformed stream) must agree on stdout and outcome between the reference, the "
-             "model machine on the real parser's tree, the in-process evaluator and the `garden run` CLI.",
-        note=TB + "The refinement theorem is PARTIAL: the simulation framework (frame-context statement with break/continue/return/"
-             "error clauses) is in place but only the leaf cases are proved; the remaining node kinds are covered by the "
-             "differential only. Evaluation-order choices of the reference (arguments right-to-left, no short-circuit) are "
-             "documented choices. Known findings: break/continue in operand position.",
+             "Proved in full (machine_refines_bigstep, stages a+b+c): for every program satisfying the decidable fragment predicates "
+             "wfProgram (the parser's use flags), exitsProgram (break/continue only in statement position of a loop body) and "
+             "levelProgram <= 2, and every fuel, if the reference returns a value v (or an error e) with output w, the machine "
+             "model started on the same program reaches done v (or error e) with the same output. Covers literals, variables, "
+             "operators, let/assign/+=, lists, tuples, if/else, match, while, for, break, continue through any nesting, named "
+             "functions with recursion, closures capturing by value, calls, return from any depth. Every quick run checks the "
+             "predicates on ~1.6k real parser trees (all satisfy them) and requires stdout and outcome to agree between the "
+             "reference, the model machine, the in-process evaluator and the `garden run` CLI.",
+        note=TB + "Non-terminating runs (reference out of fuel) claim nothing. break/continue in operand position is excluded by "
+             "exitsProgram and is a known finding. Toplevel `{...}` block items are outside wfProgram. Evaluation-order choices of "
+             "the reference (arguments right-to-left, no short-circuit) are documented choices matching the implementation.",
         design="§7 C05"),
     "C16": dict(
         category="proof",
